@@ -921,6 +921,10 @@ def run(rep):
             rep.finding('unlisted', {'family': r['family'], 'length': r['length'], 'exit_status': r['status'], 'what': r['problems'][:4], 'stderr': r['stderr'],
                                      'config': r.get('config', '')})
     __import__('c18seq').stage(rep, tools, sc, rng)     # position family: the failing path in the middle of an action list
+    pairs_cov = None
+    if rep.tier == 'thorough':
+        # two path-carrying inputs near their limits in the same run, every combination of lengths (tools/c18pairs.py)
+        pairs_cov = __import__('c18pairs').stage(rep, tools, int(os.environ.get('VERIF_C18_WINDOW', '0')) or 6)
     import envlen; envcov = envlen.stage(rep, sc, tools, tier=rep.tier); envcov['unit'] = envlen.unit(rep, sc, rep.tier)   # HOME / TMPDIR / TZ / host name around their buffer sizes
     unit = unit_paths(rep, sc)
     if unit['model_mismatches'] and not rep.violations:
@@ -943,7 +947,7 @@ def run(rep):
                       'truncation; HOME and TMPDIR of PATH_MAX-2 .. PATH_MAX+2 characters in a maildir run (readenv copies both); unit: defaultconf() '
                       'and readenv() of the real mdsort.c in-process against Model.defaultconf / Model.readenv and "accepted iff shorter than PATH_MAX, '
                       'then complete"',
-        'evaluations': len(results) + unit['requests'] + ustart['requests'],
+        'evaluations': len(results) + unit['requests'] + ustart['requests'] + (pairs_cov['runs'] if pairs_cov else 0),
         'distinct_nontrivial': len([r for r in results if r['status'] != 0]),
         'rule': 'every length in a window of +-8 around the limit for: destination path literal / after ~ expansion / after macro expansion / '
                 'after interpolation (PATH_MAX), generated file name through the host name (NAME_MAX), TMPDIR of the stdin spool (PATH_MAX); real '
@@ -962,7 +966,10 @@ def run(rep):
         'unit_paths': unit,
         'samples': results[:2] + [r for r in results if r['status'] != 0][:2],
         'families': fam,
+        'single_input_sweeps': {'runs': len(results), 'exhaustive': True},
     })
+    if pairs_cov:
+        rep.coverage['pairs_of_inputs_near_their_limits'] = pairs_cov
 
 
 def replay(rep, path):
